@@ -11,7 +11,7 @@
 //   operator / leaf text (identifier, literal spelling, string/char value) and its children; types with their
 //   qualifiers (as a sorted set), pointers (and pointer qualifiers), reference flag, array extents and bit field.  Strings are written
 //   length-prefixed (<n>:<bytes>) so that the serialisation is unambiguous.
-//   Every request gets fresh parser objects.  Before a request is processed its id is written to the file named by
+//   Parser objects: see parseAndPrint().  Before a request is processed its id is written to the file named by
 //   $W_PRINT_CUR so that the driver can attribute a sanitizer abort to the request in progress.
 #include <algorithm>
 #include <cstdio>
@@ -404,28 +404,46 @@ struct Parsed {
   std::string printed, ser;
 };
 
+// Constructing a parser_t costs ~100 ms under ASan (keyword map, operator tries): by default one parser object is
+// reused (parseSource() starts with clear(), as the library's own tests rely on); with W_PRINT_FRESH=1 every parse
+// gets a new parser object (the driver confirms every failure that way before it reports it).
+static bool freshParsers = false;
+static parser_t *sharedParser = NULL;
+
 static Parsed parseAndPrint(const std::string &src) {
   Parsed r;
   r.ok = false;
+  parser_t *parser = NULL;
   try {
-    parser_t parser;
-    parser.parseSource(src);
-    r.ok = parser.succeeded();
+    if (freshParsers) {
+      parser = new parser_t();
+    } else {
+      if (!sharedParser) sharedParser = new parser_t();
+      parser = sharedParser;
+    }
+    parser->parseSource(src);
+    r.ok = parser->succeeded();
     if (r.ok) {
-      r.printed = parser.toString();
+      r.printed = parser->toString();
       std::ostringstream o;
       o << "(root";
-      serChildren(o, parser.root);
+      serChildren(o, parser->root);
       o << ")";
       r.ser = o.str();
     }
   } catch (occa::exception &e) {
     r.ok = false;
     diag += std::string("occa::exception: ") + e.what();
+    if (!freshParsers) {
+      // do not trust the state of a parser that threw
+      sharedParser = NULL;
+    }
   } catch (std::exception &e) {
     r.ok = false;
     diag += std::string("std::exception: ") + e.what();
+    if (!freshParsers) sharedParser = NULL;
   }
+  if (freshParsers) delete parser;
   return r;
 }
 
@@ -433,6 +451,7 @@ int main() {
   occa::io::stderr.setOverride(capture);
   occa::io::stdout.setOverride(capture);
   const char *cur = ::getenv("W_PRINT_CUR");
+  freshParsers = (::getenv("W_PRINT_FRESH") != NULL);
   // OCCA prints some debugging output straight to stdout: keep the protocol channel private
   int outfd = ::dup(1);
   ::dup2(2, 1);
